@@ -12230,3 +12230,165 @@ func ruleCompletionAfterProgress(c *Ctx) {
 	}
 	c.Floor("completion-after-progress.methods", n, 1)
 }
+
+// ruleLayerCacheFresh (C04): a DAO layer that is dropped must have had nothing in common with the layer below it. The
+// native caches follow that by copy-on-write: a layer starts with an empty cache map, takes a Copy() of the lower
+// layer's cache the first time it is asked for a writable one, and hands its copies down when it is persisted. Every
+// statement of package dao that puts entries into a layer's cache map is classified: a fresh Copy(), the owner's own
+// value (SetCache parameter), or the hand-down into the layer's own nativeCachePS. Entries taken over from another
+// layer in any other direction (an upper layer filled from the one it wraps) are shared objects: the upper layer's
+// writes go into the lower layer's cache and stay there when the upper layer is dropped by a caught exception.
+func ruleLayerCacheFresh(c *Ctx) {
+	pk := c.P.Pkg("pkg/core/dao")
+	if pk == nil {
+		c.Lost("layer-cache-fresh.anchor", "package dao not found")
+		return
+	}
+	info := pk.TypesInfo
+	isCacheSel := func(e ast.Expr) (ast.Expr, bool) {
+		se, ok := ast.Unparen(e).(*ast.SelectorExpr)
+		if !ok || se.Sel.Name != "nativeCache" {
+			return nil, false
+		}
+		return se.X, true
+	}
+	n := 0
+	for _, fd := range c.P.AllFuncDecls() {
+		if fd.Pkg != pk || fd.Decl.Body == nil {
+			continue
+		}
+		fn := shortSym(FuncKey(fd.Obj))
+		// single definitions of locals
+		def := map[types.Object]ast.Expr{}
+		cnt := map[types.Object]int{}
+		ast.Inspect(fd.Decl.Body, func(x ast.Node) bool {
+			if as, ok := x.(*ast.AssignStmt); ok && len(as.Lhs) == len(as.Rhs) {
+				for i, l := range as.Lhs {
+					if id, ok := l.(*ast.Ident); ok {
+						if o := info.ObjectOf(id); o != nil {
+							cnt[o]++
+							def[o] = as.Rhs[i]
+						}
+					}
+				}
+			}
+			return true
+		})
+		resolve := func(e ast.Expr) ast.Expr {
+			if id, ok := ast.Unparen(e).(*ast.Ident); ok {
+				if o := info.ObjectOf(id); o != nil && cnt[o] == 1 {
+					return def[o]
+				}
+			}
+			return e
+		}
+		isParam := func(e ast.Expr) bool {
+			id, ok := ast.Unparen(e).(*ast.Ident)
+			if !ok {
+				return false
+			}
+			o := info.ObjectOf(id)
+			for _, fl := range fd.Decl.Type.Params.List {
+				for _, nm := range fl.Names {
+					if info.ObjectOf(nm) == o {
+						return true
+					}
+				}
+			}
+			return false
+		}
+		isCopyCall := func(e ast.Expr) bool {
+			call, ok := ast.Unparen(resolve(e)).(*ast.CallExpr)
+			if !ok {
+				return false
+			}
+			se, ok := ast.Unparen(call.Fun).(*ast.SelectorExpr)
+			return ok && se.Sel.Name == "Copy" && len(call.Args) == 0
+		}
+		isFreshMap := func(e ast.Expr) bool {
+			e = ast.Unparen(e)
+			if isNilIdent(info, e) {
+				return true
+			}
+			if _, ok := e.(*ast.CompositeLit); ok {
+				return true
+			}
+			if call, ok := e.(*ast.CallExpr); ok {
+				if id, ok := call.Fun.(*ast.Ident); ok && id.Name == "make" {
+					return true
+				}
+			}
+			return false
+		}
+		ast.Inspect(fd.Decl.Body, func(x ast.Node) bool {
+			switch y := x.(type) {
+			case *ast.AssignStmt:
+				for i, l := range y.Lhs {
+					if i >= len(y.Rhs) {
+						continue
+					}
+					if ix, ok := ast.Unparen(l).(*ast.IndexExpr); ok {
+						if _, ok := isCacheSel(ix.X); ok {
+							n++
+							key := "layer-cache-fresh:" + fn + ".entry"
+							switch {
+							case isCopyCall(y.Rhs[i]):
+								c.OK(key, c.P.Pos(y.Pos()), "the entry is a fresh Copy()")
+							case isParam(y.Rhs[i]):
+								c.OK(key, c.P.Pos(y.Pos()), "the entry is the caller's own value")
+							default:
+								c.Fail(key, c.P.Pos(y.Pos()), fn+" puts "+types.ExprString(y.Rhs[i])+" into a layer's native cache map, which is neither a fresh Copy() nor the caller's own value: the layer shares the cache object with another layer, and what it writes there survives its being dropped")
+							}
+						}
+					} else if _, ok := isCacheSel(l); ok {
+						n++
+						key := "layer-cache-fresh:" + fn + ".map"
+						if isFreshMap(y.Rhs[i]) {
+							c.OK(key, c.P.Pos(y.Pos()), "the layer's cache map is set to an empty map / nil")
+						} else {
+							c.Fail(key, c.P.Pos(y.Pos()), fn+" sets a layer's native cache map to "+types.ExprString(y.Rhs[i])+": two layers share one map, the copies one makes are visible to the other and survive its rollback")
+						}
+					}
+				}
+			case *ast.KeyValueExpr:
+				if id, ok := y.Key.(*ast.Ident); ok && id.Name == "nativeCache" {
+					if v, ok := info.ObjectOf(id).(*types.Var); ok && v.IsField() {
+						n++
+						key := "layer-cache-fresh:" + fn + ".map"
+						if isFreshMap(y.Value) {
+							c.OK(key, c.P.Pos(y.Pos()), "the layer's cache map is set to an empty map / nil")
+						} else {
+							c.Fail(key, c.P.Pos(y.Pos()), fn+" builds a layer whose native cache map is "+types.ExprString(y.Value)+": two layers share one map")
+						}
+					}
+				}
+			case *ast.CallExpr:
+				callee := calleeFunc(info, y)
+				if callee == nil || callee.Pkg() == nil || callee.Pkg().Path() != "maps" || len(y.Args) != 2 {
+					return true
+				}
+				dst, ok := isCacheSel(y.Args[0])
+				if !ok {
+					return true
+				}
+				n++
+				key := "layer-cache-fresh:" + fn + ".bulk"
+				src, sok := isCacheSel(y.Args[1])
+				down := false
+				if sok {
+					// the destination is the source layer's own lower layer: <src>.nativeCachePS
+					if se, ok := ast.Unparen(resolve(dst)).(*ast.SelectorExpr); ok && se.Sel.Name == "nativeCachePS" && sameExpr(info, se.X, src) {
+						down = true
+					}
+				}
+				if down {
+					c.OK(key, c.P.Pos(y.Pos()), "entries are handed down from a layer into the layer it wraps (persist)")
+				} else {
+					c.Fail(key, c.P.Pos(y.Pos()), fn+" fills the native cache map of "+types.ExprString(dst)+" with the entries of "+types.ExprString(y.Args[1])+", and the destination is not the source layer's own nativeCachePS: the layer starts with cache objects it shares with another layer, its writes go into them and stay when the layer is dropped (a caught exception, a faulted transaction)")
+				}
+			}
+			return true
+		})
+	}
+	c.Floor("layer-cache-fresh.sites", n, 6)
+}
